@@ -207,21 +207,43 @@ func (obj *Package) Unuse(pkg *Package) {
 				break
 			}
 		}
-		// Rebuild to make sure use tree branches are removed as well.
-		obj.vars = map[string]*VarVal{}
-		obj.funcs = map[string]*FuncInfo{}
-		obj.classes = map[string]Class{}
+		// Rebuild to make sure use tree branches are removed as well: what
+		// the remaining used packages export, then what the package itself
+		// defines or imports (which wins).
+		vars := map[string]*VarVal{}
+		funcs := map[string]*FuncInfo{}
+		classes := map[string]Class{}
 		for _, p := range obj.Uses {
 			for name, vv := range p.vars {
-				obj.vars[name] = vv
+				if vv.Export {
+					vars[name] = vv
+				}
 			}
 			for name, fi := range p.funcs {
-				obj.funcs[name] = fi
+				if fi.Export {
+					funcs[name] = fi
+				}
 			}
 			for name, c := range p.classes {
-				obj.classes[name] = c
+				classes[name] = c
 			}
 		}
+		for name, vv := range obj.vars {
+			if vv.Pkg == obj || obj.Imports[name] != nil {
+				vars[name] = vv
+			}
+		}
+		for name, fi := range obj.funcs {
+			if fi.Pkg == obj || obj.Imports[name] != nil {
+				funcs[name] = fi
+			}
+		}
+		for name, c := range obj.classes {
+			if c.Pkg() == obj {
+				classes[name] = c
+			}
+		}
+		obj.vars, obj.funcs, obj.classes = vars, funcs, classes
 	}
 }
 
